@@ -12,6 +12,10 @@ objects `Graph.IsReferenced` declares referenced, following the Go code:
   Namespaces     `buildReferencedNamespaces` + `isNamespaceReferenced`: labels match the label selector of some
                  listener of the winning Gateway; read by `isRouteNamespaceAllowedByListener` through
                  `selector.Matches(labels)` only.
+  NginxProxy     `isNginxProxyReferenced`: the winning GatewayClass' parametersRef names it (group/kind checked by
+                 `gcReferencesAnyNginxProxy`); read by `buildNginxProxy` under the same test.
+  NGF policies   `IsNGFPolicyRelevant`: in `g.NGFPolicies` OR any targetRef resolves (Gateway winner/ignored, route in
+                 `g.Routes`, Service in ReferencedServices); `processPolicies` admits a policy under the same test.
   Secrets        `secretResolver.resolve` is called for `certificateRefs[0]` of HTTPS listeners (same namespace or
                  permitted by a ReferenceGrant); `ReferencedSecrets` = the resolved names, missing ones included.
   ConfigMaps     `validateBackendTLSCACertRef`: `configMapResolver.resolve(btp.ns/caCertRefs[0].name)` for every
@@ -44,6 +48,9 @@ structure Frame (Core ObjK View : Type) where
   isRef  : Core → NN → ObjK → Bool
   /-- the watch predicate of the kind's controller on updates (`true` = delivered) -/
   watchU : ObjK → ObjK → Bool
+  /-- the predicate also answers `true` when the key is in the LATEST graph (`existed` of the Namespace case of
+  `Graph.IsReferenced`: `g.ReferencedNamespaces[nsname]`; `g.NGFPolicies[key]` of `IsNGFPolicyRelevant`) -/
+  seenRef : Bool := false
 
 /-- cluster = everything else (`core`) + the objects of the kind -/
 structure Cl (Core ObjK : Type) where
@@ -100,7 +107,7 @@ def rel (F : Frame Core ObjK View) (latest : Option (Gr Core View)) (old : Optio
   | some g =>
     match e.obj with
     | some (.inl _) => true
-    | new => refOf F g.core e.key new || refOf F g.core e.key old
+    | new => (F.seenRef && (g.seen e.key).isSome) || refOf F g.core e.key new || refOf F g.core e.key old
 
 /-- creates, deletes and everything of the core are delivered; updates go through the kind's watch predicate -/
 def watch (F : Frame Core ObjK View) (t : Cl Core ObjK) (e : FEvent Core ObjK) : Bool :=
@@ -230,15 +237,27 @@ def sliceFrame : Frame SvcCore SliceM SliceM where
 
 abbrev Labels := List (String × String)
 
-structure NsCore where
-  /-- `AllowedRouteLabelSelector` (matchLabels) of the listeners of the winning Gateway -/
-  sels : List Labels
+/-- a listener of the winning Gateway that has an `AllowedRouteLabelSelector` (matchLabels), whatever its validity:
+an invalid listener may still be attachable, and `isRouteNamespaceAllowedByListener` evaluates its selector when
+routes are bound (their status reports the attachment) -/
+structure NsListener where
+  valid : Bool
+  sel   : Labels
   deriving DecidableEq, Repr
+
+structure NsCore where
+  listeners : List NsListener
+  deriving DecidableEq, Repr
+
+def NsCore.sels (c : NsCore) : List Labels := c.listeners.map (·.sel)
 
 def selMatches (sel labels : Labels) : Bool := sel.all (labels.contains ·)
 
-/-- `isNamespaceReferenced` -/
-def nsReferenced (c : NsCore) (l : Labels) : Bool := c.sels.any (selMatches · l)
+/-- `isNamespaceReferenced`: ALL listeners with a selector, valid or not -/
+def nsReferenced (c : NsCore) (l : Labels) : Bool := c.listeners.any (selMatches ·.sel l)
+
+/-- weakened variant (pre-image of seeded change C01-r3m1): invalid listeners are skipped -/
+def nsReferencedValidOnly (c : NsCore) (l : Labels) : Bool := c.listeners.any fun x => x.valid && selMatches x.sel l
 
 /-- `buildReferencedNamespaces` -/
 def referencedNamespaces (c : NsCore) (nss : List (NN × Labels)) : List NN :=
@@ -248,8 +267,18 @@ def nsFrame : Frame NsCore Labels (List Bool) where
   reads c _ l := nsReferenced c l
   -- `isRouteNamespaceAllowedByListener`: `selector.Matches(ns.Labels)` per selector listener
   view c l := c.sels.map (selMatches · l)
+  -- `existed || exists`: `exists := isNamespaceReferenced(obj, g.Gateway)`, `existed` = in `g.ReferencedNamespaces`
   isRef c _ l := nsReferenced c l
+  seenRef := true
   -- `LabelChangedPredicate`
+  watchU o n := o != n
+
+/-- the weakened variant: `isNamespaceReferenced` (hence also `ReferencedNamespaces`, i.e. `existed`) skips invalid
+listeners, while attachment still reads the selectors of all of them -/
+def nsFrameValidOnly : Frame NsCore Labels (List Bool) where
+  reads c _ l := nsReferenced c l
+  view c l := c.sels.map (selMatches · l)
+  isRef c _ l := nsReferencedValidOnly c l
   watchU o n := o != n
 
 /-! ### Secrets and ConfigMaps: referenced by name -/
@@ -301,5 +330,117 @@ def byName {Core : Type} (refs : Core → List NN) : Frame Core Nat Nat where
 
 def secretFrame : Frame SecCore Nat Nat := byName secretCandidates
 def configMapFrame : Frame CmCore Nat Nat := byName referencedConfigMaps
+
+/-- weakened variant of a by-name kind: the resolver records only the objects it FOUND (`resolve` returning early for
+a missing object: pre-image of seeded change C01-r3m2), so the referenced set of the latest graph holds a name only if
+the object existed when the graph was built -/
+def byNameForgetMissing {Core : Type} (refs : Core → List NN) : Frame Core Nat Nat where
+  reads c k _ := (refs c).contains k
+  view _ o := o
+  isRef _ _ _ := false
+  seenRef := true
+  watchU _ _ := true
+
+/-! ### NginxProxy: `isNginxProxyReferenced` -/
+
+/-- `gc.Spec.ParametersRef` of the winning GatewayClass -/
+structure ParamsRef where
+  group : String
+  kind  : String
+  name  : String
+  deriving DecidableEq, Repr
+
+structure NpCore where
+  /-- `g.GatewayClass` (the class named by the configuration, if it exists) and its parametersRef -/
+  gatewayClass : Option (Option ParamsRef)
+  deriving DecidableEq, Repr
+
+def ngfGroup : String := "gateway.nginx.org"
+
+/-- `gcReferencesAnyNginxProxy` + the name comparison of `isNginxProxyReferenced` (NginxProxy is cluster-scoped in
+this version: the key is the name, `buildNginxProxy` looks `nps[{Name: paramsRef.Name}]` up) -/
+def npReferenced (c : NpCore) (k : NN) : Bool :=
+  match c.gatewayClass with
+  | some (some r) => r.group == ngfGroup && r.kind == "NginxProxy" && r.name == k
+  | _ => false
+
+def nginxProxyFrame : Frame NpCore Nat Nat where
+  -- `buildNginxProxy`: `nps[{Name: gc.Spec.ParametersRef.Name}]` when `gcReferencesAnyNginxProxy(gc)`
+  reads c k _ := npReferenced c k
+  view _ o := o
+  isRef c k _ := npReferenced c k
+  -- `GenerationChangedPredicate`: every spec change is delivered
+  watchU o n := o != n
+
+/-- weakened variant: referenced only if `buildNginxProxy` found it (`g.NginxProxy != nil`) -/
+def nginxProxyFrameForgetMissing : Frame NpCore Nat Nat :=
+  { byNameForgetMissing (fun c => match c.gatewayClass with
+      | some (some r) => if r.group == ngfGroup && r.kind == "NginxProxy" then [r.name] else []
+      | _ => []) with watchU := fun o n => o != n }
+
+/-! ### NGF policies: `IsNGFPolicyRelevant` / `processPolicies` -/
+
+/-- `LocalPolicyTargetReference` -/
+structure TargetRef where
+  group : String
+  kind  : String
+  name  : String
+  deriving DecidableEq, Repr
+
+/-- a policy as far as relevance goes: namespace, targetRefs IN ORDER, and the rest of the spec -/
+structure PolicyM where
+  ns      : String
+  refs    : List TargetRef
+  payload : Nat
+  deriving DecidableEq, Repr
+
+structure PolCore where
+  /-- `g.Gateway != nil` -/
+  hasWinner : Bool
+  /-- the winning Gateway and the ignored ones (`gatewayExists`) -/
+  gateways  : List NN
+  /-- keys of `g.Routes`: ("HTTPRoute" | "GRPCRoute", namespace/name) -/
+  routes    : List (String × NN)
+  /-- `g.ReferencedServices` -/
+  refSvcs   : List NN
+  deriving DecidableEq, Repr
+
+def gatewayGroup : String := "gateway.networking.k8s.io"
+
+/-- one targetRef resolves against the graph: `gatewayAPIResourceExist` for the gateway group (Gateway: winner or
+ignored; HTTPRoute/GRPCRoute: in `g.Routes`), `ReferencedServices` for a core Service — the same test
+`processPolicies` applies when it decides whether the policy enters the graph -/
+def refResolves (c : PolCore) (ns : String) (r : TargetRef) : Bool :=
+  let nn := ns ++ "/" ++ r.name
+  if r.group == gatewayGroup then
+    if r.kind == "Gateway" then c.hasWinner && c.gateways.contains nn
+    else if r.kind == "HTTPRoute" || r.kind == "GRPCRoute" then c.routes.contains (r.kind, nn)
+    else false
+  else if r.group == "" || r.group == "core" then r.kind == "Service" && c.refSvcs.contains nn
+  else false
+
+/-- `IsNGFPolicyRelevant` without the in-graph clause: ANY targetRef resolves (all of them are considered) -/
+def policyRelevant (c : PolCore) (p : PolicyM) : Bool := p.refs.any (refResolves c p.ns)
+
+/-- `processPolicies`: the policy enters the graph iff there is a winning Gateway and some targetRef resolves -/
+def policyInGraph (c : PolCore) (p : PolicyM) : Bool := c.hasWinner && policyRelevant c p
+
+/-- weakened variant (seeded change C01-m3): only the FIRST targetRef decides -/
+def policyRelevantFirst (c : PolCore) (p : PolicyM) : Bool :=
+  match p.refs with
+  | r :: _ => refResolves c p.ns r
+  | [] => false
+
+def policyFrame : Frame PolCore PolicyM PolicyM where
+  reads c _ p := policyInGraph c p
+  view _ p := p
+  isRef c _ p := policyRelevant c p
+  -- `if _, exists := g.NGFPolicies[key]; exists { return true }`
+  seenRef := true
+  -- `GenerationChangedPredicate`
+  watchU o n := o != n
+
+def policyFrameFirstRef : Frame PolCore PolicyM PolicyM :=
+  { policyFrame with isRef := fun c _ p => policyRelevantFirst c p }
 
 end NGF.Footprint
